@@ -139,3 +139,15 @@ func SameEvents(a, b Events) bool {
 	}
 	return true
 }
+
+// BlockAsString makes block-string values plain string values: the two are spellings of
+// the same StringValue, and the printer is free to choose (round-trip comparisons).
+func BlockAsString(ev Events) Events {
+	out := append(Events(nil), ev...)
+	for i := range out {
+		if out[i].Tag == "VAL" && out[i].A == "block" {
+			out[i].A = "string"
+		}
+	}
+	return out
+}
